@@ -24,6 +24,7 @@ DagMethods == {"ExecuteDAGModel"}
 NM3 == {<<n, m>> : n \in 0..3, m \in 0..3} \cup {<<-1, 1>>, <<1, -1>>, <<2, 3>>}
 NMq == {<<1, 1>>, <<1, 2>>, <<2, 1>>, <<0, 1>>, <<2, 2>>, <<1, 0>>}
 NMs == {<<1, 1>>, <<1, 2>>, <<2, 1>>, <<0, 2>>}
+NM11 == {<<1, 1>>}
 NM4 == {<<n, m>> : n \in 0..4, m \in 0..4} \cup {<<-1, 1>>, <<1, -1>>}
 
 Layer(S, w) == UNION {[1..i -> S] : i \in 0..w}
@@ -34,6 +35,7 @@ Dags23 == Dags({"r1", "r2", "r3", "zz"}, 2, 2)
 Dags31 == Dags({"r1", "r2", "zz"}, 3, 1) \cup Dags22
 Beh3 == {"ok", "ret", "fail"}
 Beh2 == {"ok", "fail"}
+Beh1 == {"ok"}
 BehF == {"ok", "fault"}
 BehF3 == {"ok", "ret", "fault"}
 =============================================================================
